@@ -241,12 +241,40 @@ def _containerize(d):
     return c, surfs
 
 
+def _via_file(d):
+    """half of the export cases (chosen by the case data) go through the file-writing entry points
+    export_obj / export_off / export_stl and read the file back, the other half through the *_str ones"""
+    return (len(d['surfs']) + d['s'] + d['sizes'][0][0]) % 2 == 0
+
+
+def _file_export(fname, obj, binary=None, **kw):
+    import tempfile, shutil, os
+    from geomdl import exchange
+    tmp = tempfile.mkdtemp(prefix='verif_c15_')
+    try:
+        path = os.path.join(tmp, 'mesh.out')
+        if binary is not None:
+            kw['binary'] = binary
+        getattr(exchange, fname)(obj, path, **kw)
+        with open(path, 'rb' if binary else 'r') as f:
+            return f.read()
+    finally:
+        shutil.rmtree(tmp, ignore_errors=True)
+
+
 def _export(d):
     """-> (vertex records, faces (index lists as written), extra)"""
     from geomdl import exchange
     what = d['what']
     obj, surfs = _containerize(d)
     kw = dict(vertex_spacing=d['s'], update_delta=d['update'])
+    if _via_file(d) and what in ('obj', 'off', 'stl', 'stlb'):
+        real = exchange
+        class _Shim(object):
+            export_obj_str = staticmethod(lambda o, **k: _file_export('export_obj', o, **k))
+            export_off_str = staticmethod(lambda o, **k: _file_export('export_off', o, **k))
+            export_stl_str = staticmethod(lambda o, binary=False, **k: _file_export('export_stl', o, binary=binary, **k))
+        exchange = _Shim
     if what == 'obj':
         txt = exchange.export_obj_str(obj, **kw)
         V = []; Fs = []
